@@ -6,9 +6,28 @@ CFG = {
     "exe": "geomv_c12",
     "go_cmd": "c12",
     "stages": ["go:gen", "go:impl", "lean:judge"],
-    "theorems": [T + n for n in []],
-    "trusted_base": [],
-    "assumptions": [],
-    "rule": "",
+    "theorems": [T + n for n in [
+        "C12_minDist_spec", "C12_minMaxDist_spec", "C12_prune_sound_k1", "C12_nn", "C12_empty"]],
+    "trusted_base": [
+        "Lean 4.33.0 kernel; axioms of every theorem printed by #print axioms must be within {propext, Classical.choice, Quot.sound}",
+        "model lean/GeomV/C12/Model.lean (nearestNeighbor, nearestNeighbors, insertNearest, sortEntries as a visiting-order parameter, "
+        "pruneEntries, minDist, minMaxDist) on the C11 tree model; tied to /repo/index/rtree by the correspondence run: the final tree "
+        "of every history is compared exactly with the C11 model's tree (verif hook dump) and every answer with the model's answer "
+        "(object identity when MaxChildren <= 11, where sort.Sort is a stable insertion sort; distances otherwise)",
+        "math.Sqrt is monotone and exact comparisons of squared distances decide the comparisons of distances on the generated grids "
+        "(integer/half-integer coordinates, squared distances below 2^53)",
+        "the C11 trusted base (tree model, hook, harness)",
+    ],
+    "assumptions": [
+        "every object box contains a point (min <= max)",
+        "the visiting order produced by sort.Sort is a permutation of the entries (any tie-breaking)",
+        "trees are well-formed in the sense of C11 (established for every reachable tree by C11_reachable)",
+    ],
+    "rule": "C11-style histories (grow / region delete / capacity-boundary churn; (min,max) in {(2,4),(2,5),(3,6),(3,7),(4,8),(25,50)}; "
+            "pointer, geom.Point and *geom.Bounds objects; coincident and degenerate boxes) followed by 12-14 queries each: points at box "
+            "centres (half-integers), corners, on edges, just outside, far outside, grid points prone to ties, random; k in "
+            "{NearestNeighbor, 1, 2, 3, size-1, size, size+3}. One case = one history with all its queries; class = shape-kind-params-height",
     "timeout": {"quick": 900, "thorough": 3000},
+    "explanation": "SPEC verdicts: Spec.specNN / Spec.specKNN evaluated on the implementation's answer against the multiset of objects "
+                   "stored according to the history semantics (ties by distance, not identity).",
 }
